@@ -93,6 +93,34 @@ def judge(sh: Shard, mw, label, suspend, regime, exited):
             if s["facade"] is None:
                 sh.violation("C08:I3:teardown-without-facade", f"facade-teardown delivered while the manager holds no facade (state {s['state']}, task {s['task']})", dict(wbase, trail=tail(i)))
         prev_state = s["state"]
+    # ---- I8: the status-sensor text identifies the state: never a bare number, and two different
+    # states never share a text (the wording itself is the library's business)
+    texts = {}
+    for s_ in list(ev) + list(samples):
+        if s_.get("sensor") is None:
+            continue
+        txt = str(s_["sensor"])
+        if txt.strip().lstrip("-").isdigit() or not txt.strip():
+            sh.violation("C08:I8:sensor-text-not-a-status", f"status sensor shows {txt!r} in state {s_['state']}", dict(wbase, state=s_["state"]))
+            break
+    # ---- I9: RF-error escalation: more RF-error events on one connection than the library's limit
+    # put the manager into ERROR_NEEDS_ATTENTION (the lifecycle row of "too many RF errors")
+    from geckolib.const import GeckoConstants
+
+    limit = GeckoConstants.MAX_RF_ERRORS_BEFORE_HALT
+    n_rf, t_over = 0, None
+    for e in ev:
+        if e["event"] in ("CONNECTION_STARTED", "CLIENT_FACADE_IS_READY"):
+            n_rf, t_over = 0, None
+        elif e["event"] == "ERROR_RF_ERROR" and e["task"] == "SPA:RFErr handler":
+            n_rf += 1
+            if n_rf == limit + 2 and t_over is None:
+                t_over = e["t"]
+                sh.count("rf_error_escalations_due")
+                later = [x for x in samples if x["t"] > t_over + 1.0]
+                reset_meanwhile = bool(later) and any(r_["api"] == "async_reset" and t_over - 1.0 <= r_["t0"] <= later[0]["t"] for r_ in api)
+                if later and not reset_meanwhile and later[0]["state"] in ("CONNECTED", "ERROR_RF_FAULT"):
+                    sh.violation("C08:I9:rf-escalation-missing", f"{n_rf} RF-error events on one connection (limit {limit}) and the manager is still in {later[0]['state']}, not ERROR_NEEDS_ATTENTION", dict(wbase, at=round(t_over, 1)))
     # ---- I4: brackets
     for a, b, name in (("LOCATING_STARTED", "LOCATING_FINISHED", "LOCATING"), ("CONNECTION_STARTED", "CONNECTION_FINISHED", "CONNECTION")):
         open_ = 0
@@ -174,7 +202,7 @@ def judge(sh: Shard, mw, label, suspend, regime, exited):
 def gen_script(r, tier):
     from vlib.man import Phase
 
-    kind = r.choice(["plain", "plain", "outage", "rferr", "lossy-handshake", "absent", "wrong-id", "resets", "resets", "endpoint-raise", "long", "handler-raise", "handler-raise"])
+    kind = r.choice(["plain", "plain", "outage", "rferr", "lossy-handshake", "absent", "wrong-id", "resets", "resets", "endpoint-raise", "long", "handler-raise", "handler-raise", "rferr-long"])
     phases, actions = [], []
     ident = None
     ep_fault = None
@@ -196,6 +224,9 @@ def gen_script(r, tier):
         n = r.choice([1, 2, 4])
         for _ in range(n):
             actions.append((r.choice([r.uniform(0, 6), r.uniform(0, phases[0].dur)]), r.choice(["reset", "reset", "set-info"])))
+    elif kind == "rferr-long":
+        # past the too-many-RF-errors escalation (more than 50 on one connection)
+        phases = [Phase("healthy", r.choice([6, 30])), Phase("rferr", r.choice([500, 3700])), Phase("healthy", 150)]
     elif kind == "handler-raise":
         phases = [Phase("healthy", r.choice([40, 120]))]
         if r.random() < 0.4:
@@ -313,6 +344,7 @@ def main(tier, seed):
     run.need(run.counters.get("phases_that_raised", 0) > 0, "no locate/connect phase raised")
     run.extra["distinct_state_event_pairs"] = len(pairs)
     run.extra["distinct_abstract_states"] = len(run.sets.get("abstract_states", set()))
+    run.need(run.counters.get("rf_error_escalations_due", 0) >= 1, "no connection saw more RF errors than the escalation limit")
     run.need(run.counters.get("client_handler_failures", 0) >= 5, "too few client handler failures inside locate/connect phases were injected")
     return run.finish(
         rule="scenarios of the real manager against the real simulator: plain connects, outages while connected, RF-error periods, lossy handshakes (retry exhaustion), absent spa, wrong identifier, user resets / set-spa-info at drawn instants (incl. mid-handshake), endpoint creation raising, long mixed scripts; client handlers that never suspend / suspend one tick / seconds / mixed; regimes B/J/H; one evaluation = one scenario trace judged by I1-I7; distinct = distinct scenario traces; coverage of (state,event) pairs and abstract states is reported",
